@@ -12,8 +12,11 @@ var joinConds = []string{
 	"$left.a == $right.b, k",
 	"$left.a < $right.b",
 	"k, $left.a > 0",
+	"$right.b >= $left.a",
+	"$right.b < $left.a, $right.k == $left.k",
+	"$right.k != $left.a, $left.a <= $right.b",
 }
-var joinPre = []string{"", " | where a > 0", " | take 1", " | sort by a asc", " | extend c = a + 1"}
+var joinPre = []string{"", " | where a > 0", " | take 1", " | sort by a asc", " | extend c = a + 1", " | top 1 by a", " | sort by a asc nulls last | take 1", " | where a > 0 | top 1 by k asc"}
 var joinRight = []string{"", " | where b > 0", " | take 1", " | sort by b", " | where isnull(b) | take 1"}
 var joinPost = []string{"", " | where a > 0", " | count", " | project a, b", " | sort by b asc nulls last", " | take 1", " | summarize n = count() by a"}
 
@@ -37,6 +40,18 @@ func H_C03(r, npre, nright, npost int) {
 	right := joinRight[verif.Concrete(verif.IntRange(0, nright))]
 	post := joinPost[verif.Concrete(verif.IntRange(0, npost))]
 	src := "A" + pre + " | join " + kind + "(B" + right + ") on " + cond + post
+	verif.Obs("program", src)
+	CheckPipeline(src, joinDB(r, false))
+	verif.Cover("join-checked")
+}
+
+// H_C03pre: the join after every left prefix (limits and sorts before a join need two rows
+// to show), kinds x the two plain condition forms, on all tables of r rows.
+func H_C03pre(r int) {
+	kind := joinKinds[verif.Concrete(verif.IntRange(0, len(joinKinds)))]
+	cond := joinConds[verif.Concrete(verif.IntRange(0, 2))]
+	pre := joinPre[verif.Concrete(verif.IntRange(0, len(joinPre)))]
+	src := "A" + pre + " | join " + kind + "(B) on " + cond
 	verif.Obs("program", src)
 	CheckPipeline(src, joinDB(r, false))
 	verif.Cover("join-checked")
